@@ -63,9 +63,10 @@ CONTAINERS = (
 )
 
 
-def random_fixed():
-    """content generator for deterministic shape enumerations (same list in every shard)"""
-    return random.Random('c08-shapes')
+def random_fixed(seed=0):
+    """shard-independent generator for the content of deterministic enumerations: the same list, in the same
+    order, in every shard (only such lists are partitioned by index)"""
+    return random.Random('%s:C08:common' % seed)
 
 
 class C08(Prop):
@@ -458,7 +459,7 @@ class C08(Prop):
             yield mk('c08.build', ','.join(toks), tag='buildseq')
 
         # (c) scripts as byte strings
-        det = self._sigop_scripts(rng, 0) + [s for s in self._shape_scripts(random_fixed(), 0)]
+        det = self._sigop_scripts(rng, 0) + [s for s in self._shape_scripts(random_fixed(getattr(self, 'seed', 0)), 0)]
         for s in part(det):
             yield from observers(s.hex(), 'shape')
         scripts = []
